@@ -139,13 +139,17 @@ def mkPrivateKey (ke : KeyEnv) (se : Int) (c : Bool) : Except Err KeyObj :=
 def mkPublicKey (ke : KeyEnv) (x y : Int) (c : Bool) : Except Err KeyObj :=
   if ke.containsPoint x y then .ok ⟨none, (x, y), c⟩ else .error .invalidPublicPair
 
-/-- `sec_to_public_pair(sec, generator)` (strict) for a 32-byte field -/
+/-- `sec_to_public_pair(sec, generator)` (strict) for a 32-byte field; a coordinate not below the field prime is refused -/
 def secToPublicPair (ke : KeyEnv) (sec : Bytes) : Except Err Pt :=
-  if sec.length = 65 ∧ sec.take 1 = [4] then .ok ((beNat (slice sec 1 33) : Int), (beNat (slice sec 33 65) : Int))
+  if sec.length = 65 ∧ sec.take 1 = [4] then
+    (if beNat (slice sec 1 33) ≥ ke.p ∨ beNat (slice sec 33 65) ≥ ke.p then .error .encodingError
+     else .ok ((beNat (slice sec 1 33) : Int), (beNat (slice sec 33 65) : Int)))
   else if sec.length = 33 ∧ (sec.take 1 = [2] ∨ sec.take 1 = [3]) then
-    match ke.pointsForX (beNat (slice sec 1 33) : Int) with
-    | some (even, odd) => .ok (if sec.take 1 ≠ [2] then odd else even)
-    | none => .error .noSuchPoint
+    (if beNat (slice sec 1 33) ≥ ke.p then .error .encodingError
+     else
+      match ke.pointsForX (beNat (slice sec 1 33) : Int) with
+      | some (even, odd) => .ok (if sec.take 1 ≠ [2] then odd else even)
+      | none => .error .noSuchPoint)
   else .error .encodingError
 
 /-- `keys.public(sec)` = `Key.from_sec(sec)` -/
